@@ -159,3 +159,47 @@ func (s *sidecarInvariant) violations() []vk.Violation {
 	defer s.mu.Unlock()
 	return append([]vk.Violation(nil), s.viol...)
 }
+
+// checkSidecarAgainstFile is checkSidecarAgainstSource with the expected bytes
+// read from the source file as it is on disk now.
+func checkSidecarAgainstFile(sc *transfer.Sidecar, outFile, srcFile, rel string) string {
+	src, err := os.Open(srcFile)
+	if err != nil {
+		return ""
+	}
+	defer src.Close()
+	f, err := os.Open(outFile)
+	if err != nil {
+		for i := uint32(0); i < sc.TotalChunks; i++ {
+			if sc.IsComplete(i) && sc.FileSize > 0 {
+				return fmt.Sprintf("sidecar marks chunk %d of %s complete but the data file cannot be opened: %v", i, rel, err)
+			}
+		}
+		return ""
+	}
+	defer f.Close()
+	cs := int64(sc.ChunkSize)
+	for i := uint32(0); i < sc.TotalChunks; i++ {
+		if !sc.IsComplete(i) {
+			continue
+		}
+		off := int64(i) * cs
+		n := cs
+		if off+n > sc.FileSize {
+			n = sc.FileSize - off
+		}
+		if n <= 0 {
+			continue
+		}
+		got, want := make([]byte, n), make([]byte, n)
+		rn, _ := f.ReadAt(got, off)
+		wn, _ := src.ReadAt(want, off)
+		if int64(wn) != n {
+			return ""
+		}
+		if int64(rn) != n || !bytes.Equal(got, want) {
+			return fmt.Sprintf("sidecar marks chunk %d of %s (cs=%d size=%d) complete but file bytes [%d,%d) differ from the source as it is now (read %d)", i, rel, cs, sc.FileSize, off, off+n, rn)
+		}
+	}
+	return ""
+}
